@@ -668,10 +668,14 @@ def never_bound_names(fn, mi, prog=None):
                     known.add(t.name)
     bound = set()
     aug = {id(n.target) for n in ast.walk(fn) if isinstance(n, ast.AugAssign)}      # 'x += 1' reads x before it binds it
+    augnames = {n.target.id for n in ast.walk(fn) if isinstance(n, ast.AugAssign) and isinstance(n.target, ast.Name)}
+    # 'cdef double x' declares and does not assign: an accumulator that is only ever declared and augmented starts from an undefined value
+    decl = {id(n.target) for n in ast.walk(fn) if isinstance(n, ast.AnnAssign) and n.value is None and isinstance(n.target, ast.Name)
+            and (n.target.id in augnames or ':' in str(getattr(n, 'cy_type', '') or ''))}     # ... and a memoryview that is never assigned is unusable
     for n in ast.walk(fn):
         if isinstance(n, ast.arg):
             bound.add(n.arg)
-        elif isinstance(n, ast.Name) and isinstance(n.ctx, (ast.Store, ast.Del)) and id(n) not in aug:
+        elif isinstance(n, ast.Name) and isinstance(n.ctx, (ast.Store, ast.Del)) and id(n) not in aug and id(n) not in decl:
             bound.add(n.id)
         elif isinstance(n, (ast.FunctionDef, ast.ClassDef)) and n is not fn:
             bound.add(n.name)
@@ -681,7 +685,7 @@ def never_bound_names(fn, mi, prog=None):
             bound.add(n.name)
         elif isinstance(n, (ast.Global, ast.Nonlocal)):
             bound |= set(n.names)
-        elif isinstance(n, ast.AnnAssign) and isinstance(n.target, ast.Name):
+        elif isinstance(n, ast.AnnAssign) and isinstance(n.target, ast.Name) and id(n.target) not in decl:
             bound.add(n.target.id)
     out, seen = [], set()
     deco = {id(x) for d in fn.decorator_list for x in ast.walk(d)}       # '@prop.setter' names live in the class scope
